@@ -32,6 +32,15 @@ members on them one after the other:
 so that the same question is asked of one object before and after other calls (const ones included), of two objects holding the same
 value, and with live objects as both operands.  Every answer is judged against the definition evaluated on the value a fresh object
 would hold at that point.  `m_atc` / `v_atc` read through the const operator[].
+
+Ambient state: `amb K (name L tok_1 .. tok_L)*K <request>` is any request of this grammar (plain, `hist`, `life`) made after K calls
+of OTHER facilities of the library in the same process (Eigenvalues / Eigensystem / Eigenvectors / QR_Decomposition / Determinant /
+Inverse / Invertible / Rotation_Matrix / Angle / Spherical_Coordinates / Round / Integrate / Integrate_Gauss_Legendre / Find_Root /
+Find_Minimum / Interpolation / special functions / statistics / sampling; arguments: FOREIGN below).  Output:
+`<answer after the calls> || <answer of the same request in a pristine forked process> || fp c w p`, where c, w, p are 0 when the
+floating-point control state of the process (MXCSR control bits, x87 control word; p: what probe operations do - bit 0 subnormal
+results flushed, bit 1 subnormal operands read as zero, bits 2-4 rounding not to nearest) is the one the process started with.
+The answer after the calls is judged by the clauses of the request itself and must be, token for token, the pristine answer.
 """
 import math, itertools, struct, sys
 from fractions import Fraction
@@ -43,7 +52,8 @@ SLACK = 64 * EPS      # DESIGN 5.3: |y_impl - y_exact| <= 64*eps*sum|t_k| for a 
                       # the (n+1)*eps of the standard rounding model for n <= 8 terms, tight against any index/coefficient change)
 RULE = ("one case = one call of one spelling (or one law evaluated on the implementation's results) on generated operands, fresh or "
         "after a generated call history (Resize, Assign, writes, copies, compound assignments) on the same object, or one session "
-        "(several live objects in one process, calls that change them interleaved with the same questions asked again and again); "
+        "(several live objects in one process, calls that change them interleaved with the same questions asked again and again), "
+        "or any of these after calls of other facilities of the library in the same process, answered a second time by a pristine process; "
         "non-trivial = the case has a non-square matrix operand or a non-conformable pair (shape guard exercised); distinct by case text")
 LEVEL_TEXT = ("Theorems (Coq/MathComp, every shape and every entry, over an arbitrary commutative ring; the exactness laws over any "
               "number type satisfying only x*y=y*x resp. x*1=x, x*0=0, 0+x=x, x+0=x): see evidence.coverage.theorems. The Gallina model "
@@ -887,6 +897,122 @@ def life_cases(rng, big, add):
         add(s.line(), "life", "matrix", "grow-shrink")
 
 
+
+# ---- the ambient floating-point state (grammar in the module docstring): calls of other facilities of the library, each with
+#      arguments on which it is defined and terminates normally, and requests whose answers depend on the control state: results
+#      and operands in the subnormal range (flush-to-zero, denormals-are-zero) and inexact results (rounding direction)
+FEXPRS = ["exp neg * x x", "+ c 0x1p+0 * x x", "sin x", "/ c 0x1p+0 + c 0x1p+0 * x x", "* x exp neg x"]
+
+
+def foreign(rng, name=None):
+    """one call `name L tok_1 .. tok_L`"""
+    name = name or rng.choice(FOREIGN)
+    def spd(n):      # symmetric, eigenvalues near 1, 2, 4, 8 times a scale: the QR iteration converges, the matrix is invertible
+        sc = rng.choice([1.0, 0.5, 3.0, 10.0]); d = [sc * 2.0 ** k * rng.uniform(0.95, 1.05) for k in range(n)]; rng.shuffle(d)
+        M = [[0.0] * n for _ in range(n)]
+        for i in range(n):
+            M[i][i] = d[i]
+            for j in range(i + 1, n): M[i][j] = M[j][i] = sc * rng.uniform(-0.05, 0.05)
+        return M
+    def dom(n):      # strictly diagonally dominant: invertible
+        M = [[rng.uniform(-1, 1) for _ in range(n)] for _ in range(n)]
+        for i in range(n): M[i][i] = rng.choice([-1, 1]) * (n + rng.uniform(0.5, 2))
+        return M
+    if name in ("eigenvalues", "eigensystem", "eigenvectors"):
+        t = mtab([[2.0, -1.0, 0.0], [-1.0, 2.0, -1.0], [0.0, -1.0, 2.0]] if rng.random() < 0.2 else spd(rng.randint(2, 4)))
+    elif name in ("qr", "determinant", "inverse", "invertible"): t = mtab(dom(rng.randint(1 if name != "qr" else 2, 4)))
+    elif name == "rotation": t = f"{hx(rng.uniform(-3, 3))} {rng.choice([2, 3])}"
+    elif name == "angle": n = rng.randint(2, 4); t = f"{flist([rng.uniform(0.1, 2) for _ in range(n)])} {flist([rng.uniform(-2, -0.1) for _ in range(n)])}"
+    elif name == "spherical": t = f"{hx(rng.uniform(0.1, 5))} {hx(rng.uniform(0.1, 3))} {hx(rng.uniform(0, 6))}"
+    elif name == "round": q = rng.randint(1, 3); t = mtab([[rng.choice([-1, 1]) * rng.uniform(0.1, 1000) for _ in range(q)] for _ in range(rng.randint(1, 3))])
+    elif name == "integrate": t = f"{rng.choice(FEXPRS)} {hx(0.0)} {hx(rng.choice([1.0, 2.0, 0.5]))} {hx(1e-6)}"
+    elif name == "gauss_legendre": t = f"{rng.choice(FEXPRS)} {hx(0.0)} {hx(rng.choice([1.0, 2.0, 0.5]))} {rng.choice([5, 30])}"
+    elif name == "find_root": t = f"- * x x c {hx(rng.choice([0.5, 2.0, 3.0]))} {hx(0.0)} {hx(3.0)} {hx(1e-8)}"
+    elif name == "find_minimum": c0 = hx(rng.choice([0.7, 1.0, 1.3])); t = f"* - x c {c0} - x c {c0} {hx(0.0)} {hx(2.0)}"
+    elif name == "interpolation":
+        n = rng.randint(4, 7); xs = [float(k) + rng.uniform(0, 0.5) for k in range(n)]
+        t = f"{flist(xs)} {flist([rng.uniform(-2, 2) for _ in range(n)])} {hx(rng.uniform(xs[0], xs[-1]))}"
+    elif name == "special": t = hx(rng.uniform(0.5, 5))
+    elif name == "statistics": t = f"{hx(rng.uniform(-2, 2))} {hx(rng.uniform(-1, 1))} {hx(rng.uniform(0.5, 2))} {flist([rng.uniform(-3, 3) for _ in range(rng.randint(3, 7))])}"
+    else: name = "sample"; t = f"{rng.randint(1, 10 ** 6)} {rng.randint(1, 20)}"
+    return f"{name} {len(t.split())} {t}"
+
+
+FOREIGN = ["eigenvalues", "eigensystem", "eigenvectors", "qr", "determinant", "inverse", "invertible", "rotation", "angle", "spherical",
+           "round", "integrate", "gauss_legendre", "find_root", "find_minimum", "interpolation", "special", "statistics", "sample"]
+
+
+def pow2s(rng, lo, hi):
+    """+-(1, 1.5 or a random mantissa) * 2^e with e in lo..hi (0 below the smallest positive double)"""
+    return rng.choice([-1, 1]) * math.ldexp(rng.choice([1.0, 1.0, 1.5, 1.75, rng.uniform(1, 2)]), rng.randint(lo, hi))
+
+
+def underflow_request(rng):
+    """a request of the grammar some of whose results are subnormal (or whose operands are) - the ladder of result exponents runs from
+    well inside the normal range (2^-1000) through 2^-1022 and the subnormals down to below 2^-1074 - with ordinary entries mixed in"""
+    top = rng.choice([-1000, -1015, -1022, -1030, -1050, -1070]); m, n, q = rng.randint(1, 4), rng.randint(1, 4), rng.randint(1, 4)
+    ea = rng.randint(-900, -100); eb = top - ea          # a_ik * b_kj around 2^top
+    def fa(): return pow2s(rng, ea - 8, ea) if rng.random() < 0.85 else entry(rng, "int")
+    def fb(): return pow2s(rng, eb - 8, eb) if rng.random() < 0.85 else entry(rng, "int")
+    A = [[fa() for _ in range(n)] for _ in range(m)]; B = [[fb() for _ in range(q)] for _ in range(n)]
+    u = [fa() for _ in range(n)]; v = [fb() for _ in range(n)]; w = [fb() for _ in range(m)]
+    def tiny(r_, c_): return rmat(rng, r_, c_, "tiny")
+    r = rng.random()
+    if r < 0.16: return f"{rng.choice(['m_prod', 'm_op_mul', 'law_trprod'])} {mtab(A)} {mtab(B)}"
+    if r < 0.26: return f"law_mulid {mtab(rng.choice([tiny(m, n), [[pow2s(rng, -1074, -1020) for _ in range(n)] for _ in range(m)]]))}"
+    if r < 0.34: return f"{rng.choice(['m_prod_v', 'm_op_mul_v', 'law_matvec'])} {mtab(A)} {flist(v)}"
+    if r < 0.40: return f"{rng.choice(['v_mul_m', 'law_vecmat'])} {flist(w)} {mtab(A)}"
+    if r < 0.44: return f"law_vecmat_tr {flist(w)} {mtab(A)} {flist(v)}"
+    if r < 0.52: return f"{rng.choice(['v_dot', 'v_op_mul', 'law_dotouter', 'outer'])} {flist(u)} {flist(v)}"
+    if r < 0.56: return f"v_cross {flist([fa() for _ in range(3)])} {flist([fb() for _ in range(3)])}"
+    if r < 0.70:
+        s_ = pow2s(rng, eb - 4, eb); op = rng.choice(["m_prod_s", "m_op_mul_s", "s_mul_m", "v_scale", "s_mul_v", "m_div", "m_op_div", "v_div"])
+        if op in ("m_div", "m_op_div", "v_div"): s_ = pow2s(rng, -eb, -eb + 4)
+        if op == "s_mul_m": return f"s_mul_m {hx(s_)} {mtab(A)}"
+        if op == "s_mul_v": return f"s_mul_v {hx(s_)} {flist(u)}"
+        if op in ("v_scale", "v_div"): return f"{op} {flist(u)} {hx(s_)}"
+        return f"{op} {mtab(A)} {hx(s_)}"
+    if r < 0.80:     # sums and differences of neighbours of the smallest normal double: subnormal results
+        op = rng.choice(SUM_OPS + VSUM_OPS + ["law_trsum"])
+        if op in VSUM_OPS: return f"{op} {flist(rvec(rng, n, 'tiny'))} {flist(rvec(rng, n, 'tiny'))}"
+        return f"{op} {mtab(tiny(m, n))} {mtab(tiny(m, n))}"
+    if r < 0.88:     # norms and traces whose squares / partial sums are subnormal
+        sq = [[pow2s(rng, top // 2 - 6, top // 2 + 1) for _ in range(n)] for _ in range(m)]
+        op = rng.choice(["m_norm", "v_norm", "v_normalized", "trace"])
+        if op == "trace": return f"trace {mtab(tiny(n, n))}"
+        return f"m_norm {mtab(sq)}" if op == "m_norm" else f"{op} {flist(sq[0])}"
+    # comparisons of subnormal entries (with each other, with zero)
+    k = rng.randint(2, 4); S = [[0.0] * k for _ in range(k)]; kind = rng.choice(["sym", "anti", "diag"])
+    for i in range(k):
+        for j in range(i, k):
+            x = entry(rng, rng.choice(["tiny", "int"]))
+            if kind == "sym": S[i][j] = S[j][i] = x
+            elif kind == "anti" and i != j: S[i][j] = x; S[j][i] = -x
+            elif kind == "diag" and i == j: S[i][j] = x
+    i, j = rng.sample(range(k), 2)
+    if rng.random() < 0.75: S[i][j] = S[i][j] + rng.choice([-1, 1]) * DEN_MIN * rng.choice([1, 2, 3, 1000, 2 ** 30, 2 ** 51])
+    op = rng.choice(["symmetric", "antisymmetric", "diagonal", "m_eq", "v_eq"])
+    if op == "m_eq": return f"m_eq {mtab(S)} {mtab(T(S))}"
+    if op == "v_eq": return f"v_eq {flist(S[i])} {flist([row[i] for row in S])}"
+    return f"{op} {mtab(S)}"
+
+
+def amb_cases(rng, big, add, pool):
+    def calls():
+        k = rng.choice([1, 1, 1, 2, 3]); return f"amb {k} " + " ".join(foreign(rng) for _ in range(k))
+    # (1) every facility once in front of requests aimed at the underflow range, then random facilities
+    for it in range(6000 if big else 420):
+        pre = f"amb 1 {foreign(rng, FOREIGN[it % len(FOREIGN)])}" if it < 4 * len(FOREIGN) else calls()
+        add(f"{pre} {underflow_request(rng)}", "ambient", "underflow")
+    # (2) any request of the grammar (fresh operands, call histories, sessions) after calls of other facilities
+    for it in range(4000 if big else 260):
+        c = rng.choice(pool)
+        pre = f"amb 1 {foreign(rng, FOREIGN[it % len(FOREIGN)])}" if it < 2 * len(FOREIGN) else calls()
+        add(f"{pre} {c.line}", "ambient", *c.tags)
+    # (3) no call at all: the pristine answer twice
+    for _ in range(200 if big else 20): add(f"amb 0 {underflow_request(rng)}", "ambient", "no-call")
+
+
 def generate(rng, tier):
     cs = []
     big = tier != "quick"
@@ -1267,6 +1393,7 @@ def generate(rng, tier):
         br = [rng.randint(1, 3) for _ in range(GR)]; bc = [rng.randint(1, 3) for _ in range(GC)]
         add(f"blockm {GR} " + " ".join(f"{GC} " + " ".join(mtab(whole_operand(rng, br[R], bc[C], rng.choice(BLOCK_KINDS))) for C in range(GC)) for R in range(GR)), "block", "valid", "block-magnitudes")
     life_cases(rng, big, add)
+    amb_cases(rng, big, add, [c for c in cs if c is not None and len(c.line) < 1500])
     for n in range(1, 7):
         add(f"v_at {flist(rvec(rng, n))} {n - 1}", "vector", "v_at"); add(f"v_at {flist(rvec(rng, n))} {n}", "vector", "v_at"); add(f"v_at {flist(rvec(rng, n))} {n + 3}", "vector", "v_at")
     return [c for c in cs if c is not None]
@@ -1275,6 +1402,7 @@ def generate(rng, tier):
 # ---------------------------------------------------------------- nontrivial
 def operands(line):
     """shapes of the matrix operands and whether the pair is conformable for the operation"""
+    if line.startswith("amb "): line = amb_split(line)[1]
     r = Rd(line); op = r.op
     try:
         if op == "life":
@@ -1322,8 +1450,50 @@ def nontrivial(c, io):
 
 
 # ---------------------------------------------------------------- S4 predicates
+def amb_split(line):
+    """(calls, request) of an `amb` case"""
+    t = line.split(); i = 2; calls = []
+    for _ in range(int(t[1])):
+        L = int(t[i + 1]); calls.append((t[i], t[i + 2:i + 2 + L])); i += 2 + L
+    return calls, " ".join(t[i:])
+
+
+def amb_predicates(c, io):
+    """a request after calls of other facilities of the library: (1) the clauses of the request itself, on the answer given after the
+    calls; (2) that answer is the one a pristine process gives; (3) the control state the calls leave is the one they found"""
+    calls, req = amb_split(c.line); names = ", ".join(n for n, _ in calls) or "no call"
+    inner = Case(req)
+    if io.startswith("EXIT"): return predicates(inner, io)
+    parts = [p.strip() for p in io.split("||")]
+    if len(parts) != 3: return [("amb:protocol", "three parts expected")]
+    after, alone, fp = parts
+    out = [(sig + ":amb", f"after {names} in the same process: {msg}") for sig, msg in predicates(inner, after)]
+    op = Rd(req).op
+    if not out and after.split() != alone.split():
+        ta, tb = after.split(), alone.split()
+        k = next((i for i, (x, y) in enumerate(zip(ta, tb)) if x != y), min(len(ta), len(tb)))
+        out.append((f"{op}:ambient:amb", f"after {names} in the same process the answer differs from the answer of a pristine process "
+                    f"(token {k}: {ta[k] if k < len(ta) else 'missing'} vs {tb[k] if k < len(tb) else 'missing'})"))
+    f = fp.split()
+    if len(f) != 4 or f[0] != "fp": return out + [("amb:protocol", "fp state expected")]
+    if any(int(x) != 0 for x in f[1:]):
+        what = []
+        cw, xw, pr = int(f[1]), int(f[2]), int(f[3])
+        if cw & 0x8000 or pr & 1: what.append("flush-to-zero is on (subnormal results become 0)")
+        if cw & 0x0040 or pr & 2: what.append("denormals-are-zero is on")
+        if cw & 0x6000 or pr & 28 or xw & 0x0C00: what.append("the rounding direction is not to-nearest")
+        if cw & 0x1F80: what.append("floating-point exception masks changed")
+        if xw & 0x0300: what.append("x87 precision control changed")
+        out.append((f"{op}:ambient-state:amb", f"{names} left the floating-point control state of the process changed (mxcsr^={cw:#x}, x87cw^={xw:#x}, "
+                    f"probes={pr}): {'; '.join(what) or 'control bits differ'} - every Vector / Matrix operation that follows is evaluated in that state"))
+    return out
+
+
 def predicates(c, io):
     try:
+        if c.line.startswith("amb "):
+            if io.startswith(("CRASH", "SANITIZER", "TIMEOUT", "HARNESSERR")): return []
+            return amb_predicates(c, io)
         if c.line.startswith("life "):
             if io.startswith(("CRASH", "SANITIZER", "TIMEOUT", "HARNESSERR")): return []
             return life_predicates(c, io)
